@@ -82,6 +82,10 @@ def gen_c01(tier, rng):
         a = rb(rng, rng.randint(0, 200))
         b = rb(rng, rng.randint(0, 200))
         yield ('interleaving', 'sm3seq %s %s %s %s' % (hx(a), hx(b), hx(a), hx(b)), None)
+    # long messages followed by SHORTER long ones on one thread (a reused, not re-cleared buffer would leak the tail of the first)
+    for la, lb in ((5000, 1500), (1100, 1016), (3000, 2999), (4096, 1024), (2048, 1017)):
+        a, b = rb(rng, la), rb(rng, lb)
+        yield ('long-then-shorter-history', 'seq sm3 %s ; %s ; %s ; %s' % (hx(a), hx(b), hx(a[:lb]), hx(b)), None)
     # bit length that does not fit in 32 bits: >= 2^29 bytes, streamed (model folds cf; real hashes the Vec)
     blk = bytes((i * 13 + 5) & 0xff for i in range(64))
     for name, d in std_vectors('sm3.long'):
@@ -145,6 +149,19 @@ def gen_c02(tier, rng):
         # same block both directions back to back
         seq += ['e:' + hx(blocks[0]), 'd:' + hx(blocks[0]), 'd:' + hx(blocks[1]), 'e:' + hx(blocks[1])]
         yield ('history-with-rejected-calls', 'sm4hist %s %s' % (hx(k), ' '.join(seq)), None)
+    # keys that differ by a transposition / by the same mask in two bytes (their byte-wise XOR folds to zero), used one after the
+    # other on one thread: each must get its OWN key schedule
+    for _ in range(12 if tier == 'thorough' else 4):
+        ka = rb(rng, 16)
+        i_, j_ = rng.sample(range(16), 2)
+        kb = bytearray(ka); kb[i_], kb[j_] = kb[j_], kb[i_]
+        mk = rng.randrange(1, 256)
+        kc_ = bytearray(ka); kc_[i_] ^= mk; kc_[j_] ^= mk
+        x_ = rb(rng, 16)
+        yield ('related-keys-history', 'seq sm4 enc %s %s ; enc %s %s ; enc %s %s ; dec %s %s ; enc %s %s' % (
+            hx(ka), hx(x_), hx(bytes(kb)), hx(x_), hx(bytes(kc_)), hx(x_), hx(bytes(kb)), hx(x_), hx(ka), hx(x_)), None)
+    # a decrypt as the very FIRST operation of a process and of a thread (lazily initialised tables)
+    yield ('decrypt-first', 'seq sm4 dec %s %s ; enc %s %s ; dec %s %s' % ((hx(rb(rng, 16)), hx(rb(rng, 16))) * 3), None)
     # two objects with related keys created one after the other (equal halves, complemented, swapped halves)
     base = rb(rng, 8)
     related = [bytes(16), b'\xff' * 16, base + base, bytes(x ^ 0xff for x in base + base), base + bytes(8), bytes(8) + base]
